@@ -412,6 +412,51 @@ def record_wide(seed, n=300, steps=40):
     return tr
 
 
+def depth_seqs(n):
+    """every ordered tree with n nodes as its pre-order depth sequence (as MC_Shapes.tla enumerates them)"""
+    out = [[0]]
+    for _ in range(n - 1):
+        out = [d + [k] for d in out for k in range(1, d[-1] + 2)]
+    return out
+
+
+def w_shape_queries(jobs):
+    """Every ordered tree shape with 5 nodes under every naming over {a, ab}, and every shape with 6 and 7 nodes named by
+    level: the path and descendant queries asked at the root, judged by TLC (TraceForest!Query).  Document order across
+    BRANCHES needs more nodes than the edit model has."""
+    import itertools
+    fields = ("name", "kids", "ns", "content", "tail", "prefix", "attrs", "extras", "store")
+    names = ["a", "ab"]
+    paths = [list(t) for L in (1, 2, 3) for t in itertools.product(names, repeat=L)]
+    traces = []
+    for (d, nm) in jobs:
+        n = len(d)
+        kids = [[] for _ in range(n)]
+        stack = []
+        for i, dep in enumerate(d):
+            del stack[dep:]
+            if stack:
+                kids[stack[-1]].append(i + 1)
+            stack.append(i)
+        w = World.build({"name": list(nm), "kids": kids})
+        st = w.pi(fields)
+        tr = {"init": st, "events": [], "desc": {"depths": d, "names": list(nm)}}
+        root = w.n(1)
+        for pa in paths:
+            tr["events"].append({"op": "q", "q": "all_by_path", "args": [1, pa], "ret": [w.ident(y) for y in root.find_all_nodes_by_path(list(pa))], "post": st})
+            tr["events"].append({"op": "q", "q": "single_by_path", "args": [1, pa], "ret": w.ident(root.find_single_node_by_path(list(pa))), "post": st})
+        for x in names:
+            acc = []
+            root.find_all_descendants(x, acc)
+            tr["events"].append({"op": "q", "q": "find_all_descendants", "args": [1, x], "ret": [w.ident(y) for y in acc], "post": st})
+            tr["events"].append({"op": "q", "q": "find_descendant", "args": [1, x], "ret": w.ident(root.find_descendant(x)), "post": st})
+            tr["events"].append({"op": "q", "q": "find_all_children", "args": [1, x], "ret": [w.ident(y) for y in root.find_all_children(x)], "post": st})
+        if w.pi(fields) != st:
+            tr["events"].append({"op": "q", "q": "find_child", "args": [1, "a"], "ret": w.ident(root.find_child("a")), "post": w.pi(fields)})     # a query changed the tree: TLC's query-mutates
+        traces.append(tr)
+    return traces
+
+
 def w_histories(jobs):
     return [record_history(s, n, k, ["a", "ab", "b"]) for (s, n, k) in jobs]
 
@@ -503,6 +548,25 @@ def run(rep, tier, seed):
             rep.violation(f"{PID}:{key}", f"TLC rejected event {rj['event']} of history {rj['trace']}: clauses {rj['clauses']}",
                           {"kind": "history-event", "pre": pre, "event": e})
     rep.sample({"history_event": traces[0]["events"][min(5, len(traces[0]["events"]) - 1)]})
+    # F. code -> spec: the queries on every tree shape with 5 (all namings), 6 and 7 (named by level) nodes
+    import itertools
+    jobs = [(d, nm) for d in depth_seqs(5) for nm in itertools.product(["a", "ab"], repeat=5)]
+    for n in ((6, 7) if tier == "quick" else (6, 7, 8)):
+        for d in depth_seqs(n):
+            jobs.append((d, ["a" if dep % 2 else "ab" for dep in d]))
+            jobs.append((d, ["a"] * n))
+    straces = [t for chunk in parallel(w_shape_queries, jobs) for t in chunk]
+    rejects, _ = judge_traces([{"init": t["init"], "events": t["events"]} for t in straces], PID, label="shape-queries", timeout=3000)
+    nsq = sum(len(t["events"]) for t in straces)
+    rep.notes["shape_query_events_judged_by_tlc"] = nsq
+    rep.cov["traces_validated_against_impl"] += len(straces)
+    for rj in rejects:
+        tr = straces[rj["trace"] - 1]
+        e = tr["events"][rj["event"] - 1]
+        for cl in rj["clauses"]:
+            rep.violation(f"{PID}:query:{e['q']}:shapes", f"tree {tr['desc']}: {e['q']} {e['args']} returned {e['ret']}; TLC: {rj['clauses']}",
+                          {"kind": "shape-query", "desc": tr["desc"], "event": {k: v for k, v in e.items() if k != 'post'}})
+    nev += nsq
     from harness import suite
     suite.run_for(rep, "C09")
     rep.cov["evaluations"] = nT + nQ + nP + nW + nev
